@@ -86,6 +86,7 @@ def driver_source(desc, calls):
                 L.append("  args[%d] = d2bits((double)a%d);" % (i, i))
             else:
                 L.append("  args[%d] = (uint64_t)(int64_t)a%d;" % (i, i) if t[0] == "i" else "  args[%d] = (uint64_t)a%d;" % (i, i))
+        L.append("  if (ext_index > %d) _exit(3);  /* more external calls than a defined execution can make: runaway code */" % FUEL)
         L.append('  printf("E %s");' % e["name"])
         for i in range(len(e["args"])):
             L.append('  printf(" %%llu", (unsigned long long)args[%d]);' % i)
@@ -105,6 +106,7 @@ def driver_source(desc, calls):
         f = [x for x in desc["functions"] if x["name"] == fname][0]
         L.append('  printf("T %d\\n"); fflush(stdout);' % i)
         L.append("  if (fork() == 0) {")
+        L.append("    alarm(10);  /* a defined execution runs at most FUEL IR instructions */")
         L.append("    for (int b = 0; b < 8; b++) for (int k = 0; k < 16; k++) buf[b][k] = (unsigned char)(16 + k);")
         cargs = []
         for a, (pn, ty) in zip(args, f["params"]):
@@ -222,7 +224,35 @@ def observe3(m, fname, args, ptr_bits, fuel, buffers):
     return irsem.merge_layouts(obs, third)
 
 
-def reference(desc, calls, stats=None):
+UNORDERED_FLAGS = {"==": True, "!=": False, "<": True, "<=": True, ">": False, ">=": False}  # x86 ucomis + jcc on a NaN operand
+
+
+class _WatchCompare:
+    """Wraps irsem.compare while a reference execution runs: notes comparisons with a NaN operand and, with a `model`,
+    answers them as the model says (irsem.py itself is unchanged; its interpreter looks `compare` up in its module)."""
+
+    def __init__(self, model=None):
+        self.model, self.nan_seen = model, False
+
+    def __enter__(self):
+        self.orig = irsem.compare
+
+        def compare(cond, a, b):
+            if (isinstance(a, float) and a != a) or (isinstance(b, float) and b != b):
+                self.nan_seen = True
+                if self.model is not None:
+                    return self.model[cond]
+            return self.orig(cond, a, b)
+
+        irsem.compare = compare
+        return self
+
+    def __exit__(self, *exc):
+        irsem.compare = self.orig
+        return False
+
+
+def reference(desc, calls, stats=None, target=None, nan_model=None):
     """irsem observation per call (None = discarded)."""
     m = genir.build(desc)
     byname = {f["name"]: f for f in desc["functions"]}
@@ -231,7 +261,14 @@ def reference(desc, calls, stats=None):
         f = byname[fname]
         bufs = [bytes(range(16, 32))] * genir.nbufs(f)
         try:
-            obs = observe3(m, fname, genir.decode_args(args), desc["ptr_bits"], FUEL, bufs)
+            with _WatchCompare(nan_model) as watch:
+                obs = observe3(m, fname, genir.decode_args(args), desc["ptr_bits"], FUEL, bufs)
+            if watch.nan_seen and target is not None and "C05-KF6" in active_findings(target):
+                # open finding: the execution compares a NaN (exclusion at run time: NaN arises from arithmetic)
+                if stats is not None:
+                    stats.excluded["C05-KF6"] += 1
+                out.append(None)
+                continue
         except irsem.Undef as e:
             if stats is not None:
                 stats.discard("irsem undefined: " + e.reason)
@@ -277,6 +314,9 @@ def run_x86(desc, calls, level, refs, tag):
         obj = ir_to_object([m], x86link.get_arch())
     except Exception as e:
         raise Discard("code generation fails (C29): %s [%s]" % (type(e).__name__, innermost_ppci_frame(e)))
+    # executions that are undefined in IR terms (e.g. a loop the interpreter gave up on) are not run natively
+    live = [(c, r) for c, r in zip(calls, refs) if r is not None]
+    calls, refs = [c for c, _ in live], [r for _, r in live]
     wd = os.path.join(tmpdir(), tag)
     try:
         exe = x86link.build(wd, {"m.o": obj}, {"drv.c": driver_source(desc, calls)})
@@ -306,9 +346,10 @@ def run_x86(desc, calls, level, refs, tag):
         shutil.rmtree(wd, ignore_errors=True)
 
 
-def run_case(case, stats=None):
+def run_case(case, stats=None, exclude=False):
+    """exclude=True (the search): executions that reach an open finding's run-time exclusion are not evaluated"""
     desc, calls = case["module"], case["calls"]
-    refs = reference(desc, calls, stats)
+    refs = reference(desc, calls, stats, target=case.get("target", "x86_64") if exclude else None)
     defined = sum(1 for r in refs if r is not None)
     if not defined:
         raise Discard("no defined execution")
@@ -436,6 +477,37 @@ def _kf4_rewrite(desc):
     return desc
 
 
+def _value_types(f):
+    ty = {pn: pt for pn, pt in f["params"]}
+    for b in f["blocks"]:
+        for i in b["ins"]:
+            if i[0] in ("const", "binop", "unop", "cast", "load", "phi", "undef") or (i[0] == "call" and i[1]):
+                ty[i[1]] = i[2]
+    return ty
+
+
+def _narrowing_casts(f):
+    ty = _value_types(f)
+    for b in f["blocks"]:
+        for k, i in enumerate(b["ins"]):
+            s = ty.get(i[3]) if i[0] == "cast" else None
+            if s in genir.BITS and i[2] in genir.BITS and not genir.is_float(s) and not genir.is_float(i[2]) and genir.BITS[i[2]] < genir.BITS[s]:
+                yield b, k, i, s
+
+
+def _kf5_shape(desc):
+    return any(True for f in desc["functions"] for _ in _narrowing_casts(f))
+
+
+def _kf5_rewrite(desc):
+    """narrow = cast wide  ->  narrow = cast (wide | 0): the narrow value gets a register of its own"""
+    for f in desc["functions"]:
+        for b, k, i, s in reversed(list(_narrowing_casts(f))):
+            n = i[1]
+            b["ins"][k : k + 1] = [["const", n + "_kz", s, 0], ["binop", n + "_ko", s, i[3], "|", n + "_kz"], ["cast", n, i[2], n + "_ko"]]
+    return desc
+
+
 FINDINGS = {
     # riscv: SHRU8/SHRU16/DIVU16/REMU16 work on the whole register although the upper bits of a narrow value are undefined
     "C05-KF1": {"targets": RV, "shape": _kf1_shape, "rewrite": lambda ins: _rw_widen(ins, ins[2]),
@@ -449,6 +521,14 @@ FINDINGS = {
     # riscv:rvc: lw/sw at a frame offset that is not a multiple of 4 becomes c.lw/c.sw/c.lwsp/c.swsp, which encode offset/4
     "C05-KF4": {"targets": ("riscv:rvc",), "module_shape": _kf4_shape, "module_rewrite": _kf4_rewrite, "forbid": [],
                 "profile_kw": {"word_aligned_allocas": True}},
+    # riscv: widening casts and signed narrow '>>' extend the operand's register in place; a narrowing cast is a no-op that
+    # shares the register of the wider value, which is destroyed for its later uses
+    # x86_64: float comparisons use ucomis + jb/jbe/je/...: with a NaN operand ==, < and <= are taken, != is not
+    # (root cause shared with C22-KF5); the exclusion is dynamic: executions that compare a NaN are not evaluated
+    "C05-KF6": {"targets": ("x86_64",), "module_shape": lambda d: any(i[0] == "cjmp" for f in d["functions"] for b in f["blocks"] for i in b["ins"]),
+                "model": lambda d: d, "nan_model": UNORDERED_FLAGS, "forbid": []},
+    "C05-KF5": {"targets": RV, "module_shape": _kf5_shape, "module_rewrite": _kf5_rewrite,
+                "forbid": [("cast", s_, d_) for s_ in ("i16", "u16", "i32", "u32") for d_ in ("i8", "u8", "i16", "u16") if genir.BITS[d_] < genir.BITS[s_]]},
 }
 
 
@@ -505,8 +585,8 @@ def classify(case, msg):
     for k in [k for k in cands if "model" in FINDINGS[k]]:
         # the machine code of the module behaves exactly as the finding's model of the miscompiled module prescribes
         try:
-            refs = reference(FINDINGS[k]["model"](case["module"]), case["calls"])
-            if levels != ["0"] and any(r is not None for r in refs) and all(run_x86(case["module"], case["calls"], lv, refs, "k" + lv) is None for lv in levels):
+            refs = reference(FINDINGS[k]["model"](case["module"]), case["calls"], nan_model=FINDINGS[k].get("nan_model"))
+            if (levels != ["0"] or k != "C05-KF3") and any(r is not None for r in refs) and all(run_x86(case["module"], case["calls"], lv, refs, "k" + lv) is None for lv in levels):
                 return k
         except Discard:
             pass
@@ -579,7 +659,7 @@ def _worker(arg):
     def prop(case):
         for kid in active_findings(case["target"]):
             stats.excluded[kid] += 1  # the case was drawn from a profile without that finding's triggering shapes
-        msg, defined, ran = run_case(case, stats)
+        msg, defined, ran = run_case(case, stats, exclude=True)
         big = genir.count_instructions(case["module"]) >= 8
         nt = ran > 0 and defined > 0 and big
         stats.case(str(case["module"])[:4000] if nt else None, nt,
